@@ -413,7 +413,7 @@ func fluentCase(seed uint64, idx int) *CaseSpec {
 				m := st.sent[sentSoFar-1]
 				st.mu.Unlock()
 				t.Add("fl.mod %d %s => %s", ty, L(ks), encFields(flatten(m)))
-			case x < 96 && x >= 93:
+			case x < 96 && x >= 86:
 				// a Get or Flush request built by a fresh chain of setters: what reaches the wire is
 				// what *this* chain set (compared with the request built directly from the same choices)
 				if r.IntN(2) == 0 {
